@@ -21,7 +21,7 @@ T = {
          "depth bound; finite data lattice; direct parameter edits in eval mode excluded as in the property"),
  "C04": (G + " x short histories (fantasy of fantasy)", "3", "every cell of (model batch x fantasy batch x shared/per-fantasy inputs x likelihood x strategy "
          "x settings x pre-history x fantasy depth) compared with a fresh ExactGP on the concatenated data; source digest/prediction unchanged; "
-         "carried caches recomputed from full data", "finite data lattice; depth <= 3"),
+         "carried caches recomputed from full data; un-batched inputs for batched models, 1-d shorthand inputs, forward keyword arguments", "finite data lattice; depth <= 4"),
  "C05": (G, "3", "every exported kernel class x (d, n1!=n2, ARD, batch, parameter valuation, diag, code path, degenerate geometry) vs the documented "
          "covariance function written as an explicit scalar function of two rows", "finite input lattice"),
  "C06": (G + ", index expressions exhaustive on small shapes", "3", "kernel basis x broadcast triples x active_dims x lazy on/off x every index expression of the "
@@ -39,18 +39,18 @@ T = {
  "C12": (G, "3", "likelihood class x rank x noise switches x batch shapes x layout x call-time noise; R written out densely", "finite lattice"),
  "C13": (G + " + float32 sweep of log_normal_cdf", "3", "all polynomial degrees < 2*locs for each node count x (m,v) lattice; likelihood integrals vs adaptive quadrature; "
          "log_normal_cdf over a float32 bit-pattern lattice (thorough: all 2^32)", "truncation error for non-polynomial integrands bounded empirically along a finite chain"),
- "C14": (G, "3", "strategy x variational distribution x batch pattern x q(u) lattice x mode vs closed-form q(f) and KL with the documented jitter modelled", "finite lattice"),
- "C15": (G + " (all 2^5-1 minibatch subsets)", "3", "objective formula for every minibatch subset x num_data x beta x q(u) lattice; ELBO <= log evidence; NGD step reaches the collapsed bound",
+ "C14": (G, "3", "strategy x variational distribution x batch pattern x q(u) lattice x mode vs closed-form q(f) and KL with the documented jitter modelled (by argument and by the global setting); mean-only evaluation after a warm-up under other parameters; task_indices call mode of the multitask wrappers", "finite lattice"),
+ "C15": (G + " (all 2^5-1 minibatch subsets)", "3", "objective formula for every minibatch subset x num_data x beta x q(u) lattice (single-output and multitask, combined and separate terms, attributes re-assigned after construction); ELBO <= log evidence; NGD step reaches the collapsed bound",
          "'for every q(u)' is decided on the q-lattice, the maximum exactly"),
- "C16": (G + " over all 2^n NaN patterns + " + S, "3", "all NaN patterns for n=4 / (n,t)=(3,2) x policy x model vs the model on the data with those observations deleted; policy-switch histories",
+ "C16": (G + " over all 2^n NaN patterns + " + S, "3", "all NaN patterns for n=4 (thorough: 5) / (n,t)=(3,2) / batches x policy x model vs the model on the data with those observations deleted; every order of policies up to length 3 (incl. a first prediction under ignore), fantasies with NaN, likelihood terms for batched targets",
          "finite n"),
  "C17": (S + " + float sweep of transforms", "3", "every constraint class x bounds lattice x raw-value sweep (float32 lattice / all float32 thorough); all assignment/initialize/step "
          "sequences to depth 3 on every constrained parameter of every catalogue module vs a plain-map reference; prior densities vs scipy", "finite catalogue / depth"),
- "C18": (S, "3", "save points at every state of short histories x three persistence mechanisms (state_dict into a perturbed fresh model, pickle, deepcopy) over a model catalogue", "finite catalogue / depth"),
+ "C18": (S, "3", "save points at every state of short histories x six persistence mechanisms (state_dict into a perturbed fresh / used / tensor-replaced model, pickle, torch.save, deepcopy) over a model catalogue; restored objects independent of the original; evolved plain attributes carried", "finite catalogue / depth"),
  "C19": (G + " (full Jacobians via basis upstream gradients)", "3", "every basis upstream gradient for each hand-written backward x input lattice hitting both branches of each piecewise definition "
          "vs autograd of an independent re-implementation and finite differences", "finite input lattice"),
  "C20": (S + " — programs of with-blocks with fault injection", "3", "all well-nested programs over every exported settings class x argument patterns up to the nesting bound with every exception placement, "
-         "against a stack-of-dicts reference model of dynamic scoping; frame condition on every other class", "nesting depth bound; programs are `with S(args):` statements"),
+         "against a stack-of-dicts reference model of dynamic scoping; frame condition on every other class; context objects constructed before the blocks and entered twice", "nesting depth bound; programs are with-statements over settings objects"),
 }
 
 
